@@ -59,15 +59,31 @@ def run(name, tier='quick'):
     dst = os.path.join(ROOT, 'seeded', name)
     meta = json.load(open(os.path.join(dst, 'meta.json')))
     prop = meta['property']
-    assert sh('git -C /repo status --porcelain').stdout.strip() == '', '/repo is dirty'
-    r = sh('git -C /repo apply %s' % os.path.join(dst, 'patch.diff'))
-    assert r.returncode == 0, r.stdout
-    try:
-        env = dict(os.environ, VERIF_EVIDENCE_DIR='/tmp/seeded_ev_' + name)
-        p = sh('%s/check %s --tier %s' % (ROOT, prop, tier), env=env, cwd=ROOT)
-    finally:
-        sh('git -C /repo checkout -- .')
-        shutil.rmtree('/tmp/seeded_ev_' + name, ignore_errors=True)
+    if os.environ.get('SEEDED_SCRATCH'):
+        # same thing on a scratch worktree of /repo HEAD (used while something else needs /repo untouched)
+        wt = '/tmp/seeded_wt_' + name
+        sh('git -C /repo worktree remove --force %s' % wt)
+        r = sh('git -C /repo worktree add -q --detach %s HEAD' % wt)
+        assert r.returncode == 0, r.stdout
+        try:
+            r = sh('git -C %s apply %s' % (wt, os.path.join(dst, 'patch.diff')))
+            assert r.returncode == 0, r.stdout
+            env = dict(os.environ, VERIF_EVIDENCE_DIR='/tmp/seeded_ev_' + name, VERIF_REPO=wt)
+            p = sh('%s/check %s --tier %s' % (ROOT, prop, tier), env=env, cwd=ROOT)
+        finally:
+            sh('git -C /repo worktree remove --force %s' % wt)
+            shutil.rmtree(wt, ignore_errors=True)
+            shutil.rmtree('/tmp/seeded_ev_' + name, ignore_errors=True)
+    else:
+        assert sh('git -C /repo status --porcelain').stdout.strip() == '', '/repo is dirty'
+        r = sh('git -C /repo apply %s' % os.path.join(dst, 'patch.diff'))
+        assert r.returncode == 0, r.stdout
+        try:
+            env = dict(os.environ, VERIF_EVIDENCE_DIR='/tmp/seeded_ev_' + name)
+            p = sh('%s/check %s --tier %s' % (ROOT, prop, tier), env=env, cwd=ROOT)
+        finally:
+            sh('git -C /repo checkout -- .')
+            shutil.rmtree('/tmp/seeded_ev_' + name, ignore_errors=True)
     viol = [l for l in p.stdout.splitlines() if l.startswith('VIOLATION')]
     res = 'CAUGHT' if p.returncode == 1 and viol else ('MACHINERY' if p.returncode == 2 else 'MISSED')
     lines = p.stdout.splitlines()
